@@ -18,6 +18,8 @@ type callSig struct {
 	Func    string   `json:"func"`
 	File    string   `json:"file"`
 	Callees []string `json:"callees"`
+	// Returns: number of return statements of the function body (closures excluded)
+	Returns int `json:"returns"`
 	// Counts: number of call sites per callee (closures included)
 	Counts map[string]int `json:"counts,omitempty"`
 	// Order: pairs "A => B" of callees the function body itself (closures excluded) calls exactly once, where A executes before B on every path that reaches B
@@ -204,7 +206,7 @@ func (c *Ctx) callSigs(pkgs []string) []callSig {
 					}
 				}
 			}
-			out = append(out, callSig{Func: ir.FuncKey(fn), File: file, Callees: sortedKeys(set), Counts: counts, Order: order})
+			out = append(out, callSig{Func: ir.FuncKey(fn), File: file, Callees: sortedKeys(set), Counts: counts, Order: order, Returns: countReturns(fn)})
 		}
 	}
 	sort.Slice(out, func(i, j int) bool { return out[i].Func < out[j].Func })
@@ -370,6 +372,56 @@ func (c *Ctx) ruleOrderRatchet(rule string, pkgs []string, fileFilter func(file 
 			r.Ok(rule, bs.Func, cons, bs.File, "relative order unchanged")
 		} else {
 			r.Bad(rule, bs.Func, cons, bs.File, "two steps changed places: "+swapped)
+		}
+	}
+}
+
+func countReturns(fn *ssa.Function) int {
+	n := 0
+	for _, b := range fn.Blocks {
+		if _, ok := b.Instrs[len(b.Instrs)-1].(*ssa.Return); ok {
+			n++
+		}
+	}
+	return n
+}
+
+// ruleExitRatchet: no new way out of a function whose steps are otherwise unchanged.
+func (c *Ctx) ruleExitRatchet(rule string, pkgs []string, fileFilter func(file string) bool, baselineFile string, min int) {
+	r := c.R
+	r.Rule(rule, "early-exit ratchet: the committed baseline records, per function, the number of return statements. A function that calls exactly the same non-trivial callees as on the reviewed tree but has more return statements has gained an exit that skips the steps after it (a validation that is no longer reached, a drain loop that no longer runs). Functions whose callees changed are not decided", min)
+	var base []callSig
+	b, err := os.ReadFile(filepath.Join(homeDir(), baselineFile))
+	if err != nil || json.Unmarshal(b, &base) != nil {
+		r.Undec(rule, "-", "baseline:"+baselineFile, "-", "baseline file missing or unreadable")
+		return
+	}
+	for _, bs := range base {
+		inPkgs := false
+		for _, pk := range pkgs {
+			if strings.Contains(bs.Func, pk+".") {
+				inPkgs = true
+			}
+		}
+		if !inPkgs || (fileFilter != nil && !fileFilter(bs.File)) {
+			continue
+		}
+		fn := c.P.Func(bs.Func)
+		cons := fmt.Sprintf("%d returns", bs.Returns)
+		if fn == nil || fn.Blocks == nil {
+			r.Add(oblT(rule, bs.Func, cons, bs.File, "ok", "the function no longer exists: not decided", nil, true))
+			continue
+		}
+		set := map[string]bool{}
+		directCallees(c, fn, set, nil)
+		if strings.Join(sortedKeys(set), ",") != strings.Join(bs.Callees, ",") {
+			r.Add(oblT(rule, bs.Func, cons, bs.File, "ok", "the function's callees changed: not decided", nil, true))
+			continue
+		}
+		if n := countReturns(fn); n > bs.Returns {
+			r.Bad(rule, bs.Func, cons, bs.File, fmt.Sprintf("the function now has %d return statements: a new exit skips steps that the reviewed behaviour always performed", n))
+		} else {
+			r.Ok(rule, bs.Func, cons, bs.File, "no new exit")
 		}
 	}
 }
